@@ -92,6 +92,18 @@ Theorem C09_set_population : forall l,
 Proof. exact sort_dedup_spec. Qed.
 Print Assumptions C09_set_population.
 
+(* counting (what the bulk correspondence demands of the reduced log): success = n calls, n children, the children
+   installed; failure = one child fewer than calls, at most n calls, the population untouched *)
+Theorem C09_call_and_child_counts : forall (Ind R E : Type) (cm : op R (list Ind) Ind E) pop r,
+  match serial_next cm pop r with
+  | (inl children, pop', _) => length (calls cm (length pop) pop r) = length pop /\ made (calls cm (length pop) pop r) = length pop /\
+                               pop' = children /\ length pop' = length pop
+  | (inr _, pop', _) => pop' = pop /\ length (calls cm (length pop) pop r) = S (made (calls cm (length pop) pop r)) /\
+                        length (calls cm (length pop) pop r) <= length pop
+  end.
+Proof. exact @serial_counts. Qed.
+Print Assumptions C09_call_and_child_counts.
+
 Example C09_example :
   let cm : op nat (list nat) nat unit := fun pop r => if Nat.eqb r 12 then (inr tt, S r) else (inl (length pop * 100 + r), S r) in
   serial_next cm [7; 8; 9] 5 = (inl [305; 306; 307], [305; 306; 307], 8) /\
